@@ -67,7 +67,8 @@ MIN = {
     'class:ref_fwd': 50, 'class:empty': 20,
     'haz:space': 300, 'haz:squote': 150, 'haz:hash': 100, 'haz:eq': 100,
     'haz:nonascii': 150, 'haz:meta': 300, 'haz:inner_tilde': 50,
-    'export_checked': 4000,
+    'export_checked': 4000, 'sections_with_filter': 300,
+    'include_list_in_another_order': 100,
 }
 NCASES = {'quick': 480, 'thorough': 5000}
 CASE_TIMEOUT = 60
@@ -389,6 +390,7 @@ def run_case(ctx, i, rng):
     os.makedirs(cdir, exist_ok=True)
     lines = ['[scheduling]', '    [[graph]]',
              '        R1 = ' + ' & '.join(tnames), '[runtime]']
+    kept_sections = []
     for tn, items in zip(tnames, sections):
         lines.append(f'    [[{tn}]]')
         lines.append('        script = true')
@@ -396,6 +398,31 @@ def run_case(ctx, i, rng):
         for it in items:
             lines.append(render(it['name'], it['value'], it['form'],
                                 it['comment']))
+        # [environment filter]: the kept variables stay in the order of
+        # their definitions, whatever the order of the include list
+        names = [it['name'] for it in items]
+        incl, excl = [], []
+        r = rng.random()
+        if len(names) > 1 and r < 0.30:
+            if r < 0.18 or r >= 0.25:
+                incl = rng.sample(names, rng.randint(1, len(names)))
+            if r >= 0.18:
+                excl = rng.sample(names, rng.randint(1, len(names) - 1))
+            kept = [it for it in items
+                    if (not incl or it['name'] in incl)
+                    and it['name'] not in excl]
+            if kept:
+                lines.append('        [[[environment filter]]]')
+                if incl:
+                    lines.append('            include = ' + ', '.join(incl))
+                if excl:
+                    lines.append('            exclude = ' + ', '.join(excl))
+                ctx.count('sections_with_filter')
+                if incl and [n for n in names if n in incl] != incl:
+                    ctx.count('include_list_in_another_order')
+                items = kept
+        kept_sections.append(items)
+    sections = kept_sections
     flow = os.path.join(cdir, 'flow.cylc')
     with open(flow, 'w', encoding='utf8') as f:
         f.write('\n'.join(lines) + '\n')
